@@ -836,3 +836,59 @@ package xmpp
 //@   requires t.wsConn != nil
 //@   ensures [C18.ping.ws] count(WsPing) == old(count(WsPing)) + 1 && last(WsPing, 0) == t.wsConn && (err == nil) == last(WsPing, 1)
 //@   emits WsPing
+
+// ---------------------------------------------------------------------------
+// C13: StreamManager
+//
+//@ event ResumeTried(c Iface, err Iface)
+//@ event ConnectTried(c Iface, err Iface)
+//@ event ClientDisconnect(c Iface)
+//@ event HandlerSet(c Iface, h Ref)
+//@ event PostConnectCalled(s Iface)
+//@ event ManagerResume(sm Ref)
+//@ func (xmpp.StreamClient).Resume(c) (err)
+//@   emit ResumeTried(c, err)
+//@ func (xmpp.StreamClient).Disconnect(c) (err)
+//@   emit ClientDisconnect(c)
+//@ func (xmpp.StreamClient).SetHandler(c, handler)
+//@   emit HandlerSet(c, handler)
+//@ func field:xmpp.StreamManager.PostConnect(s)
+//@   emit PostConnectCalled(s)
+//@ axiom [connerr.direct] forall e Iface :: typeof(e) == ConnError ==> isConnErr(e) && permanentOf(e) == e.(ConnError).Permanent
+//
+//@ pred permanentFailure(e) := e != nil && isConnErr(e) && permanentOf(e)
+//@ func (*xmpp.StreamManager).resume(sm) (err)
+//@   requires sm != nil && sm.client != nil
+//@   emit ManagerResume(sm)
+//@   ensures [C13.resume.ok]        err == nil ==> count(ResumeTried) > old(count(ResumeTried)) && last(ResumeTried, 1) == nil && last(ResumeTried, 0) == sm.client
+//@   ensures [C13.resume.one]       forall(j, old(count(ResumeTried)), count(ResumeTried) - 1, arg(ResumeTried, j, 1) != nil && !permanentFailure(arg(ResumeTried, j, 1)))
+//@   ensures [C13.resume.permanent] err != nil ==> count(ResumeTried) > old(count(ResumeTried)) && permanentFailure(last(ResumeTried, 1)) && count(PostConnectCalled) == old(count(PostConnectCalled))
+//@   ensures [C13.resume.post]      (err == nil && sm.PostConnect != nil) ==> count(PostConnectCalled) == old(count(PostConnectCalled)) + 1 && last(PostConnectCalled) == sm.client && atlast(ResumeTried) < atlast(PostConnectCalled)
+//@   ensures [C13.resume.backoff]   count(Sleep) - old(count(Sleep)) == count(ResumeTried) - old(count(ResumeTried)) - 1
+//@   assigns sm.Metrics
+//@   emits ResumeTried, PostConnectCalled, Sleep
+//@   loop 1:
+//@     invariant sm != nil && sm.client != nil && sm.client == old(sm.client) && sm.PostConnect == old(sm.PostConnect) && boOK(backoff) && backoff.attempt >= 0
+//@     invariant count(ResumeTried) >= old(count(ResumeTried)) && count(Sleep) - old(count(Sleep)) == count(ResumeTried) - old(count(ResumeTried)) && count(PostConnectCalled) == old(count(PostConnectCalled))
+//@     invariant forall(j, old(count(ResumeTried)), count(ResumeTried), arg(ResumeTried, j, 1) != nil && !permanentFailure(arg(ResumeTried, j, 1)))
+//
+//@ func (*xmpp.StreamManager).connect(sm) (err)
+//@   requires sm != nil && (typeof(sm.client) == *Client ==> connectOK(sm.client.(*Client)))
+//@   ensures [C13.connect.state] (sm.client == nil || typeof(sm.client) != *Client || old(sm.client.(*Client).CurrentState.state) != StateDisconnected) ==> err != nil && count(PostConnectCalled) == old(count(PostConnectCalled))
+//@   ensures [C13.connect.post]  (err == nil && sm.PostConnect != nil) ==> count(PostConnectCalled) == old(count(PostConnectCalled)) + 1 && last(PostConnectCalled) == sm.client
+//@   ensures [C13.connect.fail]  err != nil ==> count(PostConnectCalled) == old(count(PostConnectCalled))
+//@   assigns *
+//@   emits PostConnectCalled, Spawn_recv, Spawn_keepalive, Write, EventHandler
+//
+//@ func (*xmpp.StreamManager).Stop(sm)
+//@   requires sm != nil && sm.client != nil
+//@   ensures [C13.stop] count(HandlerSet) == old(count(HandlerSet)) + 1 && last(HandlerSet, 1) == nil && count(ClientDisconnect) == old(count(ClientDisconnect)) + 1 && atlast(HandlerSet) < atlast(ClientDisconnect) && count(WgDone) == old(count(WgDone)) + 1
+//@   emits HandlerSet, ClientDisconnect, WgDone
+//
+//@ func (*xmpp.StreamManager).Run$1(e, sm) (err)
+//@   requires sm != nil && sm.client != nil && sm.Metrics != nil
+//@   ensures [C13.handler.disconnected] e.State.state == StateDisconnected ==> count(ManagerResume) == old(count(ManagerResume)) + 1 && count(ClientDisconnect) == old(count(ClientDisconnect))
+//@   ensures [C13.handler.streamerror]  e.State.state == StateStreamError ==> count(ClientDisconnect) == old(count(ClientDisconnect)) + 1 && count(ManagerResume) == old(count(ManagerResume)) + ite(e.StreamError != "conflict", 1, 0)
+//@   ensures [C13.handler.other]        (e.State.state != StateDisconnected && e.State.state != StateStreamError) ==> count(ManagerResume) == old(count(ManagerResume)) && count(ClientDisconnect) == old(count(ClientDisconnect))
+//@   assigns *
+//@   emits ManagerResume, ClientDisconnect, ResumeTried, PostConnectCalled, Sleep
